@@ -835,7 +835,8 @@ def _tensorclass(cls: T, *, frozen, shadow: bool) -> T:
         args = tuple(_arg_to_tensordict(arg) for arg in args)
         kwargs = {key: _arg_to_tensordict(value) for key, value in kwargs.items()}
 
-        result = TD_HANDLED_FUNCTIONS[func](*args, **kwargs)
+        # dispatch again on the tensordicts: lazily stacked operands have their own overrides
+        result = func(*args, **kwargs)
         if isinstance(result, (list, tuple)):
             return type(result)(
                 _from_tensordict_with_copy(tensorclass_instance, tensordict_result)
